@@ -11,7 +11,7 @@
 (***************************************************************************)
 EXTENDS IfaceDerive
 
-CONSTANTS Universe, TypeDepth0, MaxArgs
+CONSTANTS Universe, TypeDepth0, MaxArgs, MaxItems, RichArgs   \* RichArgs: instantiate T with templated and numeric arguments too
 
 \* ---------------------------------------------------------------- types
 ConstQ == {<<c, q>> : c \in BOOLEAN, q \in Quals}
@@ -36,7 +36,10 @@ TypePool(d) ==
 PlainPool == { t \in TypePool(0) : TRUE }
 IntT == Ty(<<"int">>, <<>>, FALSE, "", TRUE)
 VoidT == Ty(<<"void">>, <<>>, FALSE, "", TRUE)
-TmplT == <<TP("T", <<TN(<<"double">>, <<>>), TN(<<"gtsam", "Pose3">>, <<>>)>>)>>
+TmplT == IF RichArgs
+         THEN <<TP("T", <<TN(<<"double">>, <<>>), TN(<<"gtsam", "Pose3">>, <<>>),
+                          TN(<<"ns", "B">>, <<TN(<<"C">>, <<>>)>>), TN(<<"3">>, <<>>)>>)>>
+         ELSE <<TP("T", <<TN(<<"double">>, <<>>), TN(<<"gtsam", "Pose3">>, <<>>)>>)>>
 
 \* the positions a type can occupy in a free declaration; class positions are in TypeClassMembers
 \* the full depth is used in argument and return position; the other positions stop one level earlier
@@ -118,24 +121,58 @@ NsLeaves(n) ==
     EnumN(nm("E"), "class", <<"X", "Y">>),
     Var(IntT, nm("v"), TRUE, "1") }
 
+\* ---------------------------------------------------------------- instantiation shapes (C08)
+Dbl == TN(<<"double">>, <<>>)
+P3  == TN(<<"gtsam", "Pose3">>, <<>>)
+BC  == TN(<<"ns", "B">>, <<TN(<<"C">>, <<>>)>>)
+N3  == TN(<<"3">>, <<>>)
+Sz  == TN(<<"size_t">>, <<>>)
+TT  == Ty(<<"T">>, <<>>, FALSE, "", FALSE)
+UT  == Ty(<<"U">>, <<>>, TRUE, "&", FALSE)
+InstTmpls == { <<TP("T", <<>>)>>, <<TP("T", <<Dbl>>)>>, <<TP("T", <<Dbl, P3, BC>>)>>,
+               <<TP("T", <<Dbl, P3>>), TP("U", <<Sz, BC, N3>>)>>, <<TP("T", <<Dbl>>), TP("U", <<>>)>>,
+               <<TP("T", <<P3, Dbl>>), TP("U", <<Sz>>), TP("V", <<BC, N3>>)>>,
+               <<TP("T", <<Dbl, P3, BC, N3, Sz>>)>> }
+FooMembers(tm) ==
+  << Ctor("Foo", <<>>, <<Arg(TT, "x", FALSE, "")>>),
+     Method("get", <<>>, Ret1(TT), <<Arg(IF Len(tm) > 1 THEN UT ELSE TT, "y", FALSE, "")>>, TRUE),
+     Method("tm", <<TP("M", <<Dbl, Sz>>)>>, Ret1(VoidT), <<Arg(Ty(<<"M">>, <<>>, FALSE, "", FALSE), "m", FALSE, ""), Arg(TT, "t", FALSE, "")>>, FALSE),
+     Static("Make", <<>>, Ret1(Ty(<<"This">>, <<>>, FALSE, "", FALSE)), <<>>) >>
+TdPaths == { <<>>, <<"a">>, <<"a", "b">> }
+InstLeaves(n) ==
+  LET nm(s) == s \o ToString(n) IN
+       { ClassN("Foo", tm, FALSE, FALSE, NoType, FooMembers(tm)) : tm \in InstTmpls }
+  \cup { Typedef(TN(p \o <<"Foo">>, a), nm("FooTd")) : p \in TdPaths, a \in { <<P3>>, <<Dbl, BC>> } }
+  \cup { Func("fn", tm, Ret1(TT), <<Arg(Ty(<<"std", "vector">>, <<TT>>, TRUE, "&", FALSE), "v", FALSE, "")>>) :
+           tm \in { <<TP("T", <<>>)>>, <<TP("T", <<Dbl, BC>>)>>, <<TP("T", <<P3>>), TP("U", <<Sz, N3>>)>> } }
+  \cup { Typedef(TN(p \o <<"fn">>, <<P3>>), nm("fnTd")) : p \in { <<>>, <<"a">> } }
+  \cup { Fwd(<<"Ext">>, FALSE, FALSE, <<>>), Typedef(TN(<<"Ext">>, <<BC>>), nm("ExtTd")),
+         Typedef(TN(<<"a", "Ext">>, <<P3, Dbl>>), nm("ExtTd")) }
+  \cup { EnumN(nm("E"), "class", <<"X", "Y">>), Var(IntT, nm("v"), TRUE, "1"), Include("x/" \o nm("h") \o ".h"),
+         ClassN(nm("Plain"), <<>>, TRUE, TRUE, TN(<<"a", "Foo">>, <<Dbl>>), <<Method("self", <<>>, Ret1(Ty(<<"This">>, <<>>, FALSE, "*", FALSE)), <<>>, TRUE)>>),
+         Func(nm("plainf"), <<>>, Ret1(VoidT), <<Arg(IntT, "i", TRUE, "0")>>) }
+
 \* ---------------------------------------------------------------- choice operators
 ExhNsChoices(ctx) ==
-  IF Universe = "ns" THEN {"a", "b"} ELSE {}
+  IF Universe = "ns" THEN {"a", "b"} ELSE IF Universe = "inst" /\ ctx.nitems < MaxItems THEN (IF ctx.nspath = <<>> THEN {"a"} ELSE {"b"}) ELSE {}
 ExhClassChoices(ctx) ==
   CASE Universe = "types"   -> IF ctx.cnt = 0 THEN TypeClassHdrs ELSE {}
     [] Universe = "sigs"    -> IF ctx.cnt = 0 THEN {ClassN("A", <<>>, FALSE, FALSE, NoType, <<>>)} ELSE {}
     [] Universe = "classes" -> IF ctx.cnt = 0 THEN ShapeHdrs ELSE {}
     [] Universe = "ns"      -> {ClassN("A" \o ToString(ctx.cnt), <<>>, FALSE, FALSE, NoType, <<>>)}
+    [] Universe = "inst"    -> {}
 ExhMemberChoices(ctx) ==
   CASE Universe = "types"   -> IF ctx.nmembers = 0 /\ ctx.cls = "A" THEN TypeClassMembers ELSE {}
     [] Universe = "sigs"    -> IF ctx.nmembers = 0 THEN SigMembers ELSE {}
     [] Universe = "classes" -> ShapeMembers(ctx.nmembers)
     [] Universe = "ns"      -> IF ctx.nmembers = 0 THEN {Prop(IntT, "p", FALSE, "")} ELSE {}
+    [] Universe = "inst"    -> {}
 ExhLeafChoices(ctx) ==
   CASE Universe = "types"   -> IF ctx.cnt = 0 THEN TypeLeaves ELSE {}
     [] Universe = "sigs"    -> IF ctx.cnt = 0 THEN SigLeaves ELSE {}
     [] Universe = "classes" -> {}
     [] Universe = "ns"      -> NsLeaves(ctx.cnt)
+    [] Universe = "inst"    -> IF ctx.nitems < MaxItems THEN InstLeaves(ctx.nitems) ELSE {}
 
 \* every type of the pool is well formed, and its typename view renders to the same tokens minus qualifiers
 ASSUME \A t \in TypePool(1) : WellFormedType(t)
